@@ -179,8 +179,10 @@ def judge(result, assertion_msg=None):
         return None
     trace = [first]
     ref_msg, ref_pos = first[1], pos_key(first[2])
+    # a closure is displayed with the file and line it was written at, which differ between the `run` job and the contexts
+    unclosure = (lambda m: re.sub(r"<closure [^>]*>", "<closure>", m)) if (ref_msg == "Assertion failed" and assertion_msg is not None) else (lambda m: m)
     if ref_msg == "Assertion failed" and assertion_msg is not None:
-        ref_msg = assertion_msg
+        ref_msg = unclosure(assertion_msg)
     verdict = None
     for i in (1, 2, 3):
         if panic and panic["request"] == i:
@@ -197,7 +199,7 @@ def judge(result, assertion_msg=None):
             verdict = (i, "became-ok")
         elif r[0] != "err":
             verdict = (i, "no-evaluate-response")
-        elif r[1] != ref_msg:
+        elif unclosure(r[1]) != ref_msg:
             verdict = (i, "message")
         elif pos_key(r[2]) != ref_pos:
             verdict = (i, "position")
